@@ -16,8 +16,8 @@ from ..facts import strip, root_ref, callee_name
 EXTERNAL_WRITES = {
     # BLAS level 1/2/3 (Fortran interface, trailing underscore), s/d/c/z
     'swap_': (1, 3), 'scal_': (2,), 'copy_': (3,), 'axpy_': (4,),
-    'trsv_': (6,), 'gemv_': (9,), 'ger_': (8,), 'trsm_': (10,), 'gemm_': (11,),
-    'symv_': (8,), 'hemv_': (8,), 'syr2_': (8,), 'her2_': (8,), 'gerc_': (8,), 'geru_': (8,),
+    'trsv_': (6,), 'gemv_': (9,), 'ger_': (7,), 'trsm_': (9,), 'gemm_': (11,),
+    'symv_': (8,), 'hemv_': (8,), 'syr2_': (7,), 'her2_': (7,), 'gerc_': (7,), 'geru_': (7,),
     'rot_': (1, 3),
     'memcpy': (0,), 'memset': (0,), 'memmove': (0,), 'strcpy': (0,), 'strncpy': (0,), 'strcat': (0,),
     'sprintf': (0,), 'snprintf': (0,), 'fgets': (0,), 'fread': (0,),
